@@ -72,3 +72,19 @@ class PSxLeaf(Leaf):
     ensures = [('ongrid', {'C15', 'C17'}, '__CPROVER_return_value >= 0.0f && __CPROVER_return_value <= (float)(self->g__nmeshcellsX - 1)')]
     assigns = ''
     safety_tags_all = True
+
+
+class CalcCoeffZeroLeaf(Leaf):
+    """SourceMap::calcCoefficiants at offset fraction exactly zero (+0 or -0), all four schemes, IEEE single precision:
+    one weight is exactly 1.0f and every other weight compares equal to zero — the bit-precise half of "whole-cell shifts are
+    lossless" (C02); the VCG proves the same in ideal arithmetic for every f"""
+    name = 'vfps::SourceMap::calcCoefficiants'
+    tu = 'src/SM/SourceMap.cpp'
+    cname = 'calc_coeff'
+    tags = {'C02'}
+    requires = ['__CPROVER_is_fresh(ic, 4 * sizeof(float))', 'f == 0.0f', 'it >= 1 && it <= 4']
+    ensures = [('unit_weight', {'C02'}, '(it == 1) ? (ic[0] == 1.0f) : (it == 2) ? (ic[0] == 1.0f && ic[1] == 0.0f) : '
+                                        '(it == 3) ? (ic[0] == 0.0f && ic[1] == 1.0f && ic[2] == 0.0f) : '
+                                        '(ic[0] == 0.0f && ic[1] == 1.0f && ic[2] == 0.0f && ic[3] == 0.0f)')]
+    assigns = '__CPROVER_object_whole(ic)'
+    safety_tags_all = True
